@@ -17,7 +17,7 @@ LEVEL = 'fault_enumeration'
 N_QUICK = 6000
 N_THOROUGH = 150000
 
-COOP_KINDS = ['raise', 'raise', 'wrong', 'interrupt', 'interrupt', 'early_exit', 'swap_stdout',
+COOP_KINDS = ['raise', 'raise', 'wrong', 'interrupt', 'interrupt', 'early_exit', 'swap_stdout', 'close_stdout',
               'warn_filters', 'warn', 'bad_repr', 'mute']
 TRACE_EXCS = ['KeyboardInterrupt', 'KeyboardInterrupt', 'SystemExit', 'MemoryError', 'RecursionError']
 
@@ -62,8 +62,10 @@ def generate(rng, tier):
     n_faults = 0 if r < 0.2 else 1 if r < 0.8 else 2
     if flavour == 'imports' or rng.random() < 0.15:
         m = rng.choice(world['modules'])
-        kind = rng.choice(['raise', 'raise', 'syspath', 'syspath', 'print'])
+        kind = rng.choice(['raise', 'raise', 'syspath', 'syspath', 'print', 'warn_filters', 'warn'])
         f = {'import': m['name'], 'kind': kind}
+        if kind == 'warn_filters':
+            f['how'] = rng.choice(['ignore', 'error'])
         if kind == 'raise':
             f['exc'] = rng.choice(['ImportError', 'ValueError', 'KeyboardInterrupt', 'SystemExit', 'SimBaseExc', 'RuntimeError'])
         if kind == 'syspath':
@@ -99,7 +101,7 @@ def generate(rng, tier):
                 f['msg'] = 'fault ' + p['pid']
                 f['depth'] = rng.choice([0, 0, 2])
             elif kind == 'interrupt':
-                f['exc'] = rng.choice(['KeyboardInterrupt', 'SystemExit', 'SimBaseExc'])
+                f['exc'] = rng.choice(['KeyboardInterrupt', 'SystemExit', 'SimBaseExc', 'Failed'])
             elif kind == 'early_exit':
                 f['exc'] = rng.choice(['ExitTestException', 'Skipped'])
             elif kind == 'warn_filters':
@@ -159,7 +161,8 @@ def check(rec):
             continue
         added = [x[2] for x in im.get('import_log', []) if x[1] == 'added']
         removed = [x[2] for x in im.get('import_log', []) if x[1] == 'removed']
-        for r, detail in harness.compare_snaps(im['snap0'], im['snap1'], (added, removed)):
+        body_filter = any(x[1] == 'warnfilter' for x in im.get('import_log', []))
+        for r, detail in harness.compare_snaps(im['snap0'], im['snap1'], (added, removed, body_filter)):
             out.append(common.viol('C12.R5', '%s [%s] after import_module_from_path(%s) %s %s' % (
                 detail, r, im['modpath'], im['how'], im['exc'] or ''),
                 modpath=im['modpath'], how=im['how'], exc=im['exc'], sub=r))
